@@ -617,3 +617,339 @@ theorem finite_of_safeOptCycle (i : IDL) (h : safeOptCycle i = true) : finiteB i
 
 end Gen
 end VV
+
+namespace VV
+namespace Gen
+
+/-! ### the converse: every component of `Safe` is necessary for a clean skeleton -/
+
+mutual
+  /-- every sibling name below a type is wrapped in `r#…` -/
+  theorem tyIdents_complete : ∀ (t : Ty) (name : String), ∀ l ∈ tySiblings t, ∀ s ∈ l,
+      (IdentCtor.rawParse, s) ∈ tyIdents name t
+    | .struct fs, name, l, hl, s, hs => by
+      simp only [tySiblings, List.mem_cons] at hl
+      simp only [tyIdents, List.mem_cons]
+      right
+      rcases hl with hl | hl
+      · rw [hl] at hs; exact fieldsIdents_names fs name s hs
+      · exact fieldsIdents_complete fs name l hl s hs
+    | .enum vs, name, l, hl, s, hs => by
+      simp only [tySiblings, List.mem_cons, List.not_mem_nil, or_false] at hl
+      rw [hl] at hs
+      simp only [tyIdents, List.mem_cons, List.mem_map]
+      exact Or.inr ⟨s, hs, rfl⟩
+    | .arr t, name, l, hl, s, hs => by
+      simp only [tySiblings] at hl; simp only [tyIdents]; exact tyIdents_complete t name l hl s hs
+    | .opt t, name, l, hl, s, hs => by
+      simp only [tySiblings] at hl; simp only [tyIdents]; exact tyIdents_complete t name l hl s hs
+    | .map t, name, l, hl, s, hs => by
+      simp only [tySiblings] at hl
+      simp only [tyIdents]
+      split
+      · simp [tySiblings, fieldsSiblings] at hl; rw [hl] at hs; simp at hs
+      · exact tyIdents_complete t name l hl s hs
+    | .bool, _, _, hl, _, _ => by simp [tySiblings] at hl
+    | .int, _, _, hl, _, _ => by simp [tySiblings] at hl
+    | .float, _, _, hl, _, _ => by simp [tySiblings] at hl
+    | .string, _, _, hl, _, _ => by simp [tySiblings] at hl
+    | .object, _, _, hl, _, _ => by simp [tySiblings] at hl
+    | .ref _, _, _, hl, _, _ => by simp [tySiblings] at hl
+  theorem fieldsIdents_names : ∀ (fs : List (String × Ty)) (name : String), ∀ s ∈ fs.map (·.1),
+      (IdentCtor.rawParse, s) ∈ fieldsIdents name fs
+    | [], _, s, hs => by simp at hs
+    | (f, t) :: rest, name, s, hs => by
+      simp only [List.map_cons, List.mem_cons] at hs
+      simp only [fieldsIdents, List.mem_cons, List.mem_append]
+      rcases hs with hs | hs
+      · left; rw [hs]
+      · right; right; exact fieldsIdents_names rest name s hs
+  theorem fieldsIdents_complete : ∀ (fs : List (String × Ty)) (name : String), ∀ l ∈ fieldsSiblings fs, ∀ s ∈ l,
+      (IdentCtor.rawParse, s) ∈ fieldsIdents name fs
+    | [], _, l, hl, _, _ => by simp [fieldsSiblings] at hl
+    | (f, t) :: rest, name, l, hl, s, hs => by
+      simp only [fieldsSiblings, List.mem_append] at hl
+      simp only [fieldsIdents, List.mem_cons, List.mem_append]
+      rcases hl with hl | hl
+      · right; left; exact tyIdents_complete t (sub name f) l hl s hs
+      · right; right; exact fieldsIdents_complete rest name l hl s hs
+end
+
+theorem tyIdents_root {n : String} {d : Ty} (h : isDef d = true) :
+    ∃ c, c ≠ IdentCtor.new ∧ (c, n) ∈ tyIdents n d := by
+  cases d <;> simp [isDef] at h
+  · exact ⟨IdentCtor.rawFormat, by decide, by simp [tyIdents]⟩
+  · exact ⟨IdentCtor.rawParse, by decide, by simp [tyIdents]⟩
+
+theorem panics_of_raw {c : IdentCtor} {n : String} (hc : c ≠ IdentCtor.new) (hn : n ∈ notRawable) :
+    panics (c, n) = true := by
+  simp only [panics, Bool.and_eq_true, bne_iff_ne, ne_eq]
+  exact ⟨hc, by simpa using hn⟩
+
+/-- no panic ⇒ S1 (typedefs being structs or enums, as the grammar has it) -/
+theorem safeRawIdent_of_noPanic (i : IDL) (hdefs : typedefsAreDefs i = true) (h : (emit i).noPanic = true) :
+    safeRawIdent i = true := by
+  simp only [Emission.noPanic, Bool.not_eq_true', List.any_eq_false] at h
+  simp only [safeRawIdent, Bool.not_eq_true', List.any_eq_false, List.mem_append]
+  intro n hn hbad
+  have hbad' : n ∈ notRawable := by simpa using hbad
+  have key : ∃ c, c ≠ IdentCtor.new ∧ (c, n) ∈ (emit i).idents := by
+    rcases hn with hn | hn
+    · obtain ⟨⟨tn, d⟩, htd, rfl⟩ := List.mem_map.mp hn
+      have hd : isDef d = true := by
+        simp only [typedefsAreDefs, List.all_eq_true] at hdefs
+        exact hdefs (tn, d) htd
+      obtain ⟨c, hc, hmem⟩ := tyIdents_root (n := tn) hd
+      refine ⟨c, hc, ?_⟩
+      simp only [emit, List.mem_append, List.mem_flatMap]
+      exact Or.inl (Or.inl (Or.inr ⟨(tn, d), htd, hmem⟩))
+    · refine ⟨IdentCtor.rawParse, by decide, ?_⟩
+      simp only [IDL.fieldNames, List.mem_flatten, IDL.allSiblings, List.mem_append, List.mem_flatMap] at hn
+      obtain ⟨l, hl, hs⟩ := hn
+      simp only [emit, List.mem_append, List.mem_flatMap]
+      rcases hl with ⟨⟨tn, d⟩, htd, hl⟩ | ⟨fs, hfs, hl⟩
+      · exact Or.inl (Or.inl (Or.inr ⟨(tn, d), htd, tyIdents_complete d tn l hl n hs⟩))
+      · have hmem : ∀ name, (IdentCtor.rawParse, n) ∈ fieldsIdents name fs := by
+          intro name
+          simp only [tySiblings, List.mem_cons] at hl
+          rcases hl with hl | hl
+          · rw [hl] at hs; exact fieldsIdents_names fs name n hs
+          · exact fieldsIdents_complete fs name l hl n hs
+        simp only [IDL.allStructs, List.mem_append, List.mem_map, List.mem_flatMap] at hfs
+        rcases hfs with ⟨e, he, rfl⟩ | ⟨m, hm, hfs⟩
+        · exact Or.inl (Or.inr ⟨e, he, by simp [hmem]⟩)
+        · simp only [List.mem_cons, List.not_mem_nil, or_false] at hfs
+          rcases hfs with rfl | rfl
+          · exact Or.inr ⟨m, hm, by simp [hmem]⟩
+          · exact Or.inr ⟨m, hm, by simp [hmem]⟩
+  obtain ⟨c, hc, hmem⟩ := key
+  have := h (c, n) hmem
+  rw [panics_of_raw hc hbad'] at this
+  exact absurd this (by simp)
+
+end Gen
+end VV
+
+namespace VV
+namespace Gen
+
+theorem emit_traitFns (i : IDL) : (emit i).traitFns =
+    [("VarlinkCallError", i.errors.map fun e => replyFn e.name)] ++
+    (i.methods.map fun m => (callName m.name, ["reply"])) ++
+    [("VarlinkInterface", (i.methods.map fun m => toSnakeCase m.name) ++ ["call_upgraded"]),
+     ("VarlinkClientInterface", i.methods.map fun m => toSnakeCase m.name)] := rfl
+
+theorem emit_variants (i : IDL) : (emit i).variants = ["Varlink_Error", "VarlinkReply_Error"] ++ i.errors.map (·.name) := rfl
+
+/-- no reserved word among fns and variants ⇒ S2 -/
+theorem safeKwFn_of_noKeyword (i : IDL) (h : (emit i).noKeyword = true) : safeKwFn i = true := by
+  simp only [Emission.noKeyword, Emission.allFns, Bool.and_eq_true, Bool.not_eq_true', List.any_eq_false] at h
+  obtain ⟨hf, hv⟩ := h
+  simp only [safeKwFn, Bool.and_eq_true, Bool.not_eq_true', List.any_eq_false]
+  constructor
+  · intro m hm
+    apply hf
+    rw [emit_traitFns]
+    refine List.mem_flatMap.mpr ⟨("VarlinkClientInterface", i.methods.map fun m => toSnakeCase m.name), ?_, ?_⟩
+    · apply List.mem_append_right; simp
+    · exact List.mem_map.mpr ⟨m, hm, rfl⟩
+  · intro e he
+    apply hv
+    rw [emit_variants]
+    exact List.mem_append_right _ (List.mem_map.mpr ⟨e, he, rfl⟩)
+
+/-- no trait with two fns of one name ⇒ S3 -/
+theorem safeSnake_of_fnsDistinct (i : IDL) (h : (emit i).fnsDistinct = true) : safeSnake i = true := by
+  have hall : ∀ p ∈ (emit i).traitFns, hasDup p.2 = false := by
+    intro p hp
+    have := (List.all_eq_true.mp h) p hp
+    simpa using this
+  rw [emit_traitFns] at hall
+  simp only [safeSnake, Bool.and_eq_true, Bool.not_eq_true']
+  constructor
+  · have := hall ("VarlinkInterface", (i.methods.map fun m => toSnakeCase m.name) ++ ["call_upgraded"])
+      (by apply List.mem_append_right; simp)
+    exact this
+  · have := hall ("VarlinkCallError", i.errors.map fun e => replyFn e.name)
+      (by apply List.mem_append_left; apply List.mem_append_left; simp)
+    exact this
+
+theorem safeErrFn_of_noAmbiguity (i : IDL) (h : (emit i).noAmbiguity = true) : safeErrFn i = true := by
+  simpa [Emission.noAmbiguity, emit, List.find?, safeErrFn] using h
+
+theorem safeParams_of_noShadow (i : IDL) (h : (emit i).noShadow = true) : safeParams i = true := by
+  simp only [Emission.noShadow, Bool.and_eq_true, Bool.not_eq_true'] at h
+  simpa [safeParams, emit] using h.2
+
+theorem safeParamVariant_of_noLint (i : IDL) (h : (emit i).noLint = true) : safeParamVariant i = true := by
+  simpa [Emission.noLint, safeParamVariant, emit] using h
+
+theorem safeOptCycle_of_noCycle (i : IDL) (h : (emit i).noCycle = true) : safeOptCycle i = true := by
+  simpa [Emission.noCycle, safeOptCycle, emit, IDL.graph] using h
+
+/-- the unconditioned shape of the emitted item names -/
+theorem emit_itemNames_raw (i : IDL) :
+    (emit i).itemNames =
+      ["ErrorKind", "Error", "Result"] ++
+      (i.errors.flatMap fun e => (fieldsItems (argsName e.name) e.parm).map (·.2)) ++
+      (["VarlinkCallError"] ++
+       (i.types.flatMap fun (n, d) => (tyItems n d).map (·.2)) ++
+       (i.errors.flatMap fun e => (fieldsItems (argsName e.name) e.parm).map (·.2) ++ [argsName e.name]) ++
+       (i.methods.flatMap fun m =>
+          ((fieldsItems (argsName m.name) m.input) ++ (fieldsItems (replyName m.name) m.output)).map (·.2) ++
+          [replyName m.name, argsName m.name, callName m.name]) ++
+       fixedTail) := by
+  simp only [Emission.itemNames, emit, fixedTail, List.map_append, List.map_flatMap, List.map_cons, List.map_nil,
+    List.append_assoc, List.cons_append, List.nil_append]
+
+theorem nodup_of_hasDup_false {l : List String} (h : hasDup l = false) : l.Nodup := (hasDup_false_iff l).mp h
+
+/-- items pairwise distinct ⇒ S4: an anonymous type below an error's parameters is emitted by
+    `generate_error_code` and again by `VError::to_tokenstream` -/
+theorem safeErrAnon_of_itemsDistinct (i : IDL) (h : (emit i).itemsDistinct = true) : safeErrAnon i = true := by
+  simp only [Emission.itemsDistinct, Bool.and_eq_true, Bool.not_eq_true'] at h
+  have hnd := nodup_of_hasDup_false h.1
+  rw [emit_itemNames_raw] at hnd
+  simp only [safeErrAnon, List.all_eq_true, List.isEmpty_iff]
+  intro e he
+  cases hfi : fieldsItems (argsName e.name) e.parm with
+  | nil => rfl
+  | cons p ps =>
+    exfalso
+    have hdis := (List.nodup_append.mp hnd).2.2
+    have h1 : p.2 ∈ ["ErrorKind", "Error", "Result"] ++
+        (i.errors.flatMap fun e => (fieldsItems (argsName e.name) e.parm).map (·.2)) := by
+      apply List.mem_append_right
+      exact List.mem_flatMap.mpr ⟨e, he, by simp [hfi]⟩
+    have h2 : p.2 ∈ (["VarlinkCallError"] ++
+       (i.types.flatMap fun (n, d) => (tyItems n d).map (·.2)) ++
+       (i.errors.flatMap fun e => (fieldsItems (argsName e.name) e.parm).map (·.2) ++ [argsName e.name]) ++
+       (i.methods.flatMap fun m =>
+          ((fieldsItems (argsName m.name) m.input) ++ (fieldsItems (replyName m.name) m.output)).map (·.2) ++
+          [replyName m.name, argsName m.name, callName m.name]) ++
+       fixedTail) := by
+      apply List.mem_append_left
+      apply List.mem_append_left
+      apply List.mem_append_right
+      exact List.mem_flatMap.mpr ⟨e, he, by simp [hfi]⟩
+    exact hdis _ h1 _ h2 rfl
+
+end Gen
+end VV
+
+namespace VV
+namespace Gen
+
+theorem tyItems_root {n : String} {d : Ty} (h : isDef d = true) : n ∈ (tyItems n d).map (·.2) := by
+  cases d <;> simp [isDef] at h <;> simp [tyItems]
+
+theorem not_nodup_of_mem_both {p q : List String} {x : String} (hp : x ∈ p) (hq : x ∈ q) : ¬ (p ++ q).Nodup := by
+  intro h
+  exact (List.nodup_append.mp h).2.2 x hp x hq rfl
+
+theorem fixed_cases : ∀ x ∈ fixedItems,
+    x ∈ ["ErrorKind", "Error", "Result"] ∨ x = "VarlinkCallError" ∨ x ∈ fixedTail := by decide
+
+theorem typeName_mem_items (i : IDL) {n : String} {d : Ty} (hnd : (n, d) ∈ i.types) (hd : isDef d = true) :
+    n ∈ (i.types.flatMap fun (n, d) => (tyItems n d).map (·.2)) :=
+  List.mem_flatMap.mpr ⟨(n, d), hnd, tyItems_root hd⟩
+
+/-- items distinct, nothing shadowed ⇒ S5 -/
+theorem safeReserved_of_clean (i : IDL) (hdefs : typedefsAreDefs i = true)
+    (h1 : (emit i).itemsDistinct = true) (h2 : (emit i).noShadow = true) : safeReserved i = true := by
+  simp only [Emission.itemsDistinct, Bool.and_eq_true, Bool.not_eq_true', List.any_eq_false] at h1
+  simp only [Emission.noShadow, Bool.and_eq_true, Bool.not_eq_true', List.any_eq_false] at h2
+  have hnd := nodup_of_hasDup_false h1.1
+  simp only [safeReserved, Bool.not_eq_true', List.any_eq_false, Bool.or_eq_false_iff]
+  intro n hn
+  obtain ⟨⟨tn, d⟩, htd, rfl⟩ := List.mem_map.mp hn
+  have hd : isDef d = true := by
+    simp only [typedefsAreDefs, List.all_eq_true] at hdefs
+    exact hdefs (tn, d) htd
+  have hTY := typeName_mem_items i htd hd
+  have hitem : tn ∈ (emit i).itemNames := by
+    rw [emit_itemNames_raw]
+    apply List.mem_append_right
+    apply List.mem_append_left
+    apply List.mem_append_left
+    apply List.mem_append_left
+    exact List.mem_append_right _ hTY
+  have hA : tn ∉ fixedItems := by
+    -- a fixed item of the same name is emitted as well
+    have : tn ∉ fixedItems := by
+      intro hfx
+      rw [emit_itemNames_raw] at hnd
+      have hcases := fixed_cases tn hfx
+      rcases hcases with hc | hc | hc
+      · refine not_nodup_of_mem_both (x := tn) (List.mem_append_left _ hc) ?_ hnd
+        apply List.mem_append_left
+        apply List.mem_append_left
+        apply List.mem_append_left
+        exact List.mem_append_right _ hTY
+      · have hnd2 := (List.nodup_append.mp hnd).2.1
+        simp only [List.append_assoc] at hnd2
+        refine not_nodup_of_mem_both (x := tn) (by simp [hc]) ?_ hnd2
+        exact List.mem_append_left _ hTY
+      · have hnd2 := (List.nodup_append.mp hnd).2.1
+        refine not_nodup_of_mem_both (x := tn) ?_ hc hnd2
+        apply List.mem_append_left
+        apply List.mem_append_left
+        exact List.mem_append_right _ hTY
+    exact this
+  have hB : tn ∉ importedNames := by simpa using h1.2 tn hitem
+  have hC : tn ∉ shadowSensitive := by simpa using h2.1 tn hitem
+  intro hor
+  simp only [Bool.or_eq_true, List.contains_iff_mem] at hor
+  rcases hor with (hor | hor) | hor
+  · exact hA hor
+  · exact hB hor
+  · exact hC hor
+
+theorem sublist_errArgs (i : IDL) :
+    (i.errors.map fun e => argsName e.name).Sublist
+      (i.errors.flatMap fun e => (fieldsItems (argsName e.name) e.parm).map (·.2) ++ [argsName e.name]) := by
+  induction i.errors with
+  | nil => exact List.Sublist.refl _
+  | cons e es ih =>
+    simp only [List.map_cons, List.flatMap_cons]
+    have : [argsName e.name].Sublist ((fieldsItems (argsName e.name) e.parm).map (·.2) ++ [argsName e.name]) :=
+      List.sublist_append_right _ _
+    exact (this.append ih)
+
+/-- items distinct ⇒ S6 -/
+theorem safePaths_of_itemsDistinct (i : IDL) (h : (emit i).itemsDistinct = true) : safePaths i = true := by
+  simp only [Emission.itemsDistinct, Bool.and_eq_true, Bool.not_eq_true'] at h
+  have hnd := nodup_of_hasDup_false h.1
+  rw [emit_itemNames_raw] at hnd
+  simp only [safePaths, Bool.not_eq_true']
+  rw [hasDup_false_iff]
+  refine List.Nodup.sublist ?_ hnd
+  simp only [IDL.moduleNames]
+  refine List.Sublist.trans ?_ (List.sublist_append_right _ _)
+  refine List.Sublist.trans ?_ (List.sublist_append_left _ _)
+  have h1 := sublist_errArgs i
+  have h2 := ((List.Sublist.refl (i.types.flatMap fun (n, d) => (tyItems n d).map (·.2))).append h1).append
+    (List.Sublist.refl (i.methods.flatMap fun m =>
+          ((fieldsItems (argsName m.name) m.input) ++ (fieldsItems (replyName m.name) m.output)).map (·.2) ++
+          [replyName m.name, argsName m.name, callName m.name]))
+  refine List.Sublist.trans h2 ?_
+  simp only [List.append_assoc]
+  exact List.sublist_append_right _ _
+
+/-- `Safe` is exactly "the skeleton is clean" -/
+theorem safeB_iff_clean (i : IDL) (hdefs : typedefsAreDefs i = true) : safeB i = true ↔ (emit i).clean = true := by
+  constructor
+  · intro h
+    obtain ⟨s1, s2, s3, s4, s5, s6, s7, s8, s9, s10⟩ := safeB_spec h
+    simp [Emission.clean, emit_noPanic i s1, emit_noKeyword i s2, emit_itemsDistinct i s4 s5 s6, emit_fnsDistinct i s3,
+      emit_noCycle i s7, emit_noAmbiguity i s8, emit_noShadow i s4 s5 s9, emit_noLint i s10]
+  · intro h
+    simp only [Emission.clean, Bool.and_eq_true] at h
+    obtain ⟨⟨⟨⟨⟨⟨⟨c1, c2⟩, c3⟩, c4⟩, c5⟩, c6⟩, c7⟩, c8⟩ := h
+    simp [safeB, failedClasses, safeRawIdent_of_noPanic i hdefs c1, safeKwFn_of_noKeyword i c2,
+      safeSnake_of_fnsDistinct i c4, safeErrAnon_of_itemsDistinct i c3, safeReserved_of_clean i hdefs c3 c7,
+      safePaths_of_itemsDistinct i c3, safeOptCycle_of_noCycle i c5, safeErrFn_of_noAmbiguity i c6,
+      safeParams_of_noShadow i c7, safeParamVariant_of_noLint i c8]
+
+end Gen
+end VV
